@@ -45,6 +45,8 @@ STRUCT = {
     "ERR-SPAN": RT.rule_err_span,
     "ORDER-ARMS": RT.rule_order_arms,
     "CONTAINER-PROV": RT.rule_container_prov,
+    "SEQ-PROV": RT.rule_seq_prov,
+    "ENTRY-SIB": RT.rule_entry_sib,
     "NONCONSUMPTION-FWD": RT.rule_nonconsumption,
     "CHAR-SIB": RX.rule_char_sib,
     "REGEX-ANCHOR": RX.rule_regex_anchor,
@@ -56,20 +58,20 @@ STRUCT = {
 
 # "K" = the contract automata that serve this property (spec/contract_map.py)
 PROP_RULES = {
-    "C01": ["K", "D:POISON"],
+    "C01": ["K", "D:POISON", "SEQ-PROV"],
     "C02": ["K", "D:POISON"],
-    "C03": ["ENTRY", "K", "STREAM"],
-    "C04": ["MODE-PAIR", "MODE-PURE", "K", "D:POISON"],
-    "C05": ["D:POISON", "D:KEEP", "D:LIFO", "HOOKS-SAVE-REWIND", "HOOKS-WRITERS", "MODE-PURE", "K"],
+    "C03": ["ENTRY", "K", "STREAM", "D:POISON", "MODE-PURE"],
+    "C04": ["MODE-PAIR", "MODE-PURE", "K", "D:POISON", "ENTRY-SIB"],
+    "C05": ["D:POISON", "D:KEEP", "D:LIFO", "HOOKS-SAVE-REWIND", "HOOKS-WRITERS", "MODE-PURE", "SUB-INPUT", "K"],
     "C07": ["K", "SPAN-PROV", "READER-SIB", "INPUT-MISC"],
-    "C10": ["READER-SIB", "SPAN-PROV", "STREAM", "INPUT-MISC"],
-    "C06": ["D:ALT-LINEAR", "D:ALT-POS", "D:PFAIL", "ORDER-ARMS", "ERR-SPAN", "K"],
-    "C08": ["K", "D:POISON", "D:ALT-LINEAR", "D:PFAIL"],
+    "C10": ["READER-SIB", "SPAN-PROV", "STREAM", "INPUT-MISC", "CHAR-SIB"],
+    "C06": ["D:ALT-LINEAR", "D:ALT-POS", "D:PFAIL", "ORDER-ARMS", "ERR-SPAN", "ENTRY", "K"],
+    "C08": ["K", "D:POISON", "D:ALT-LINEAR", "D:PFAIL", "MODE-PURE", "SUB-INPUT"],
     "C09": ["K", "D:POISON", "RECURSE", "AFFINE"],
     "C11": ["K", "D:ALT-LINEAR", "D:ALT-POS", "D:PFAIL", "MEMO-KEY"],
     "C12": ["RECURSE", "ONCE", "CLONE-FIELDS", "K"],
     "C13": ["FREEZE", "STATICS", "OWN-STATE", "CLONE-FIELDS", "K"],
-    "C14": ["CHAR-SIB", "REGEX-ANCHOR", "K", "HOOKS-TOKEN"],
+    "C14": ["CHAR-SIB", "REGEX-ANCHOR", "K", "HOOKS-TOKEN", "SEQ-PROV"],
     "C15": ["K", "SUB-INPUT"],
     "C16": ["K", "SUB-INPUT", "D:ALT-LINEAR", "D:PFAIL"],
     "C17": ["K", "D:ALT-LINEAR", "D:ALT-POS", "ERR-SPAN"],
